@@ -401,6 +401,19 @@ def gen_slotblock(rng):
     return sc
 
 
+def gen_slotpreblock(rng):
+    """capacitated pre-emptive slots feeding a small slow node: interrupted and blocked customers at a slotted node"""
+    sc = gen_slotblock(rng)
+    sl = sc["nodes"][0]["slot"]
+    sl["cap"] = True
+    sl["pre"] = rng.choice([1, 2, 3])
+    sl["sizes"] = [rng.choice([0, 1, 2, 3]) for _ in sl["sizes"]]
+    if not any(sl["sizes"]):
+        sl["sizes"][0] = 2
+    sc["svcS"][0][0] = samples(rng, 2, 7, 2)
+    return sc
+
+
 def gen_trkccw(rng):
     """trackers that count customers per class, with customers that change class several times during one wait"""
     sc = gen_ppccw(rng) if rng.random() < 0.5 else gen_ccw(rng)
@@ -1048,6 +1061,7 @@ def gen_stopcount(rng):
 
 
 FAMILIES = {
+    "slotpreblock": gen_slotpreblock,
     "slotblock": gen_slotblock,
     "ppzero": gen_ppzero,
     "ppblock": gen_ppblock,
